@@ -52,6 +52,15 @@ def Spec.ReqMeaning.InScope : Spec.ReqMeaning → Prop
   | .custom c _ => c < 0x80 ∧ c ∉ modelledReqCodes
   | _ => True
 
+instance Spec.ReqMeaning.decFits (m : Spec.ReqMeaning) : Decidable m.fits := by
+  cases m <;> unfold Spec.ReqMeaning.fits <;> infer_instance
+
+instance Spec.ReqMeaning.decUnmodelled (m : Spec.ReqMeaning) : Decidable m.Unmodelled := by
+  cases m <;> unfold Spec.ReqMeaning.Unmodelled <;> infer_instance
+
+instance Spec.ReqMeaning.decInScope (m : Spec.ReqMeaning) : Decidable m.InScope := by
+  cases m <;> unfold Spec.ReqMeaning.InScope <;> infer_instance
+
 theorem Spec.ReqMeaning.InScope.unmodelled {m : Spec.ReqMeaning} (h : m.InScope) : m.Unmodelled := by
   cases m <;> first | trivial | exact h.2
 
